@@ -184,6 +184,15 @@ fn run(args: &Args, rep: &mut Report) {
             if !go(&a.to_string(), &mut acc) {
                 return acc;
             }
+            // zero-padded spellings, alone and next to another code
+            for z in 1..=5usize {
+                let padded = format!("{}{}", "0".repeat(z), a);
+                for s in [padded.clone(), format!("{padded};1"), format!("31;{padded}"), format!("{padded};{padded}")] {
+                    if !go(&s, &mut acc) {
+                        return acc;
+                    }
+                }
+            }
             for b in 0..=110u32 {
                 if !go(&format!("{a};{b}"), &mut acc) {
                     return acc;
